@@ -142,6 +142,7 @@ def e1_dv(ctx):
 def e1_reuse(ctx):
     tlc_mc(ctx, "Reuse", "MC_Reuse.cfg")
     tlc_mc(ctx, "Reuse", "MC_Reuse_dev_StaleOneHit.cfg", workers=4, expect_violation="CountRight")
+    tlc_mc(ctx, "Reuse", "MC_Reuse_dev_DrainPrealloc.cfg", workers=4, expect_violation="FirstRight")
     if not ctx.quick:
         tlc_mc(ctx, "Reuse", "MC_Reuse_dev_NilOnlyEmptyCheck.cfg", workers=4, expect_violation="IterRight")
 
